@@ -31,3 +31,11 @@ package tempo
 //@     go: if err != nil { panic(err) }
 //@     go: if !strings.Contains(text, "(date) <= (toDate('2024-03-10'))") { confirm("process zone UTC-8, window 2024-03-09T23:30Z .. 2024-03-10T01:30Z: the tag search does not read index rows dated 2024-03-10: " + text) }
 //@   end
+
+// Trace search: a bound on the start time is put on the read exactly under the request's
+// own bound - the upper one is the requested end (and is there because an end was given),
+// the lower one the requested start.
+//@ func GetTracesQuery [C13]
+//@   flag checks=-index,-assert
+//@   at sql_select.Le$ upper-bound-is-the-requested-end: typeis(arg0, "*sql.RawObject") && unbox(arg0, "*sql.RawObject").val == "start_time_unix_nano" ==> toNS > 0 && typeis(arg1, "*sql.IntVal") && unbox(arg1, "*sql.IntVal").val == toNS
+//@   at sql_select.Gt$ lower-bound-is-the-requested-start: typeis(arg0, "*sql.RawObject") && unbox(arg0, "*sql.RawObject").val == "start_time_unix_nano" ==> fromNS > 0 && typeis(arg1, "*sql.IntVal") && unbox(arg1, "*sql.IntVal").val == fromNS
